@@ -49,3 +49,9 @@ Example C05_nonvacuous :
     [@Build_mind Qn 3 [2; 1]%Q 0%Q true []; @Build_mind Qn 4 [1; 2]%Q 0%Q true []; @Build_mind Qn 5 [1; 2]%Q 1%Q false []]
   = [0; 4; 2; 5]%nat.
 Proof. vm_compute. reflexivity. Qed.
+
+(* ---- binary64 (finite values; Flocq) ---- *)
+From PV Require Import Base.NumF Base.NumFOrd.
+Definition C05_get_relation_is_cdom_float := C05_get_relation_is_cdom Fn fin Fn_ord.
+Definition C05_slot_rule_float := C05_slot_rule Fn fin Fn_ord.
+Print Assumptions C05_slot_rule_float.
